@@ -536,10 +536,12 @@ theorem C19_default_same_spelling_witness :
 `_load_config` (nested `ActionParser` configs = `Item.sub`), `parse_path`, the default-config loop of
 `get_defaults` (`Item.sub` at the head of a program), the two attempts of `_check_type` and the per-element
 bracket of a list file (`Item.listFile`), `parse_value_or_config` reading the file, `relative_path_context`
-(`Item.subObj`); `save` writes next to the file it saves -/
+(`Item.subObj`); `save` writes next to the file it saves.  `parse_path` (since 2c9f0ad) and `get_defaults` READ the file
+before entering — `get_content` opens `.absolute`, which does not look at the working directory (`C19_fs_absolute_names_same`);
+for standard input (a single dash) the bracket enters `dirname` of `cwd` joined with the dash: the directory the process is in -/
 theorem C19_bracket_sites : Jap.Gen.pathBracketSites = [
   ("_actions:_ActionConfigLoad._load_config", "change_to_path_dir(cfg_path)", "cfg = parser._apply_actions(cfg, parent_key=self.dest)"),
-  ("_core:ArgumentParser.parse_path", "change_to_path_dir(fpath)", "cfg_str = fpath.get_content() ; parsed_cfg = self.parse_string(cfg_str, os.path.basename(cfg_path), ext_vars, env, default"),
+  ("_core:ArgumentParser.parse_path", "change_to_path_dir(fpath)", "parsed_cfg = self.parse_string(cfg_str, os.path.basename(cfg_path), ext_vars, env, default"),
   ("_core:ArgumentParser.save", "change_to_path_dir(path_fc)", "save_paths(cfg)"),
   ("_core:ArgumentParser.get_defaults", "change_to_path_dir(default_config_file)", "cfg_file = self._load_config_parser_mode(default_config_file.get_content(), key=key) ; cfg = self.merge_config(cfg_file, cfg) ; try:"),
   ("_typehints:ActionTypeHint._check_type", "change_to_path_dir(config_path)", "val = adapt_typehints(val, self._typehint, **kwargs)"),
